@@ -281,6 +281,57 @@ func runC10(c *core.Ctx) {
 		}
 		nontriv++
 	}
+	// ---- E2: one receiver decoded into again and again (a json.Decoder loop, a re-used struct) ----
+	// all sequences of length <= 4 over 9 texts x 4 initial receivers (nil, empty with capacity, filled exactly, filled with
+	// spare capacity); after every successful UnmarshalText the receiver must hold the grammar's reading of that text
+	{
+		texts := []string{"", "m", "m/1", "m/1/2'", "1/2/3/4/5", "m/0H/00/007", "m/2147483647'/0", "m/x", "m//1"}
+		inits := []func() bip32path.Path{func() bip32path.Path { return nil }, func() bip32path.Path { return make(bip32path.Path, 0, 8) },
+			func() bip32path.Path { return bip32path.Path{9, 8, 7} }, func() bip32path.Path { return append(make(bip32path.Path, 0, 16), 9, 8) }}
+		depth := 3
+		if c.Thorough() {
+			depth = 4
+		}
+		var seqs int64
+		var rec func(hist []int)
+		rec = func(hist []int) {
+			if len(hist) > 0 {
+				for ii, mk := range inits {
+					seqs++
+					q := mk()
+					var names []string
+					for _, ti := range hist {
+						names = append(names, texts[ti])
+						var err error
+						pn := core.Catch(func() { err = q.UnmarshalText([]byte(texts[ti])) })
+						w, ok, _ := refParsePath(texts[ti])
+						cas := map[string]interface{}{"texts": names, "initial_receiver": ii}
+						switch {
+						case pn != nil:
+							c.Violate("C10/receiver-reuse/panic", fmt.Sprintf("UnmarshalText(%q) on a receiver that was used before (initial receiver %d, texts %q) panicked: %v", texts[ti], ii, names, pn), cas, "", nil)
+							return
+						case ok != (err == nil):
+							c.Violate("C10/receiver-reuse/verdict", fmt.Sprintf("UnmarshalText(%q) on a used receiver (initial %d, texts %q): err %v, grammar says valid=%v", texts[ti], ii, names, err, ok), cas, "", nil)
+							return
+						case ok && (len(q) != len(w) || len(w) > 0 && !reflect.DeepEqual([]uint32(q), w)):
+							c.Violate("C10/receiver-reuse/wrong-path", fmt.Sprintf("UnmarshalText(%q) on a used receiver (initial %d, texts %q) left %v in it, the text reads %v", texts[ti], ii, names, []uint32(q), w), cas, "", nil)
+							return
+						}
+					}
+				}
+			}
+			if len(hist) == depth {
+				return
+			}
+			for t := range texts {
+				rec(append(append([]int{}, hist...), t))
+			}
+		}
+		rec(nil)
+		c.Eval(seqs)
+		nontriv += seqs
+		c.Set("receiver_reuse_sequences", seqs)
+	}
 	c.NonTrivial(nontriv)
 	c.SetExhaustive(true)
 	c.Assume = []string{"strings over the 10-symbol alphabet are complete up to the length bound; every other byte value is covered by substitution / insertion at every position of 9 templates, not in arbitrary combination"}
